@@ -2,8 +2,9 @@
    (The precision clause "does not degrade with the number of rows" is checked at scale by the correspondence run
    against exact rational arithmetic; no a-priori rounding bound is proved -- see DESIGN.md section 6.) *)
 From Coq Require Import List Arith ZArith QArith Bool Permutation.
-From DS Require Import Util.SumQ Spec.Shapley Spec.NNGame Model.Kernel Model.Neighbor
-     Proofs.ShapleyAxioms Proofs.KernelFull.
+From DS Require Import Util.SumQ Spec.Shapley Spec.NNGame Model.Kernel Model.Neighbor Model.Provenance Model.Bruteforce
+     Model.ADD Spec.Count Spec.Knn Model.ShapleyAdd Model.MonteCarlo
+     Proofs.ShapleyAxioms Proofs.KernelFull Proofs.Linearity Proofs.MonteCarloProofs.
 Import ListNotations.
 Local Open Scope Q_scope.
 
@@ -31,6 +32,32 @@ Theorem C06_shapley_efficiency : forall n v, (0 < n)%nat ->
   sumQ (fun i => shapley_bf n v i) (seq 0 n) == v (alltrue n) - v (allfalse n).
 Proof. exact shapley_efficiency. Qed.
 
+(* the MODEL of the bruteforce loop, every provenance and every utility (failing coalitions are worth the null score): the scores
+   sum to the utility of the rows present when every unit is present minus the utility of the rows present when none is *)
+Theorem C06_bruteforce_efficiency : forall n p u null, (0 < n)%nat ->
+  sumQ (fun x => x) (bruteforce n p u null) == bf_game p u null (alltrue n) - bf_game p u null (allfalse n).
+Proof. exact bruteforce_efficiency. Qed.
+
+(* the MODEL of compute_shapley_add over exact coalition counts (neighbor with any K >= 1, any conjunctive provenance, distinct
+   distances): the scores sum to the KNN utility of the whole training set minus the KNN utility of no unit (the mean null score
+   whenever fewer than K rows are present without any unit) *)
+Theorem C06_add_efficiency : forall n K C rows labels dists ucols nulls, (0 < n)%nat -> (1 <= K)%nat ->
+  (forall r, (r < length rows)%nat -> (nth r labels 0 < C)%nat) ->
+  (forall d, In d dists -> length d = length rows /\ NoDup (map Qred d)) ->
+  sumQ (fun x => x) (shapley_add (map (fun d => mkProb n rows labels d (n - 1) K C) dists)
+                                 (map (fun p => count_spec p) (map (fun d => mkProb n rows labels d (n - 1) K C) dists)) ucols nulls n)
+  == v_knn K C rows labels dists ucols nulls (alltrue n) - v_knn K C rows labels dists ucols nulls (allfalse n).
+Proof. exact add_efficiency. Qed.
+
+(* untruncated montecarlo, any utility, any sample of permutations: the scores sum to v(all units) - null score on EVERY run
+   (the first marginal of every permutation is taken against the null score: finding F10 is the case v(no unit) <> null) *)
+Theorem C06_mc_efficiency : forall P n v clock perms,
+  mc_steps P = 0%nat -> Qle_bool (mc_timeout P) 0 = true -> perms <> [] -> (0 < n)%nat ->
+  (forall pi, In pi perms -> Permutation pi (seq 0 n)) ->
+  exists scores, montecarlo P n v clock perms = Some scores /\
+    sumQ (fun p => nth p scores 0) (seq 0 n) == v (alltrue n) - mc_null P.
+Proof. exact mc_efficiency. Qed.
+
 Example C06_nonvacuous :
   let ts : list kpoint := [((fun q => nth q [3; 1; 2] 0), 1 # 2, [2; 0; 1]%nat); ((fun q => nth q [0; 5; 1] 0), 0, [1; 2; 0]%nat)] in
   Qred (sumQ (fun x => x) (kernel_t 3 ts)) = 13 # 4.
@@ -39,3 +66,6 @@ Proof. vm_compute. reflexivity. Qed.
 Print Assumptions C06_kernel_efficiency.
 Print Assumptions C06_neighbor_efficiency.
 Print Assumptions C06_shapley_efficiency.
+Print Assumptions C06_bruteforce_efficiency.
+Print Assumptions C06_add_efficiency.
+Print Assumptions C06_mc_efficiency.
